@@ -106,6 +106,41 @@ class Mutator(ast.NodeTransformer):
             n.value = None
         return n
 
+    def visit_Assign(self, n):
+        """Targets other than one plain name: subscript, attribute, tuple, chain, starred."""
+        self.generic_visit(n)
+        if self.rng.random() > self.rate or len(n.targets) != 1 or not isinstance(n.targets[0], ast.Name):
+            return n
+        k = self.rng.randrange(5)
+        name = n.targets[0]
+        if k == 0:
+            n.targets = [ast.Subscript(value=ast.Name(id="KW", ctx=ast.Load()), slice=ast.Constant(value=name.id), ctx=ast.Store())]
+        elif k == 1:
+            n.targets = [ast.Attribute(value=ast.Name(id="OBJ", ctx=ast.Load()), attr=name.id, ctx=ast.Store())]
+        elif k == 2:
+            n.targets = [ast.Tuple(elts=[name, ast.Name(id=name.id + "_2", ctx=ast.Store())], ctx=ast.Store())]
+            n.value = ast.Tuple(elts=[n.value, ast.Constant(value=0)], ctx=ast.Load())
+        elif k == 3:
+            n.targets = [name, ast.Name(id=name.id + "_2", ctx=ast.Store())]
+        else:
+            n.targets = [ast.List(elts=[ast.Starred(value=name, ctx=ast.Store())], ctx=ast.Store())]
+            n.value = ast.List(elts=[n.value], ctx=ast.Load())
+        return n
+
+    def visit_For(self, n):
+        """Loop targets other than one plain name."""
+        self.generic_visit(n)
+        if self.rng.random() > self.rate or not isinstance(n.target, ast.Name):
+            return n
+        k = self.rng.randrange(3)
+        if k == 0:
+            n.target = ast.Tuple(elts=[n.target, ast.Name(id=n.target.id + "_2", ctx=ast.Store())], ctx=ast.Store())
+        elif k == 1:
+            n.target = ast.Subscript(value=ast.Name(id="KW", ctx=ast.Load()), slice=ast.Constant(value="k"), ctx=ast.Store())
+        else:
+            n.target = ast.Attribute(value=ast.Name(id="OBJ", ctx=ast.Load()), attr="item", ctx=ast.Store())
+        return n
+
 
 class _Fixed:
     """stands in for the rng: always mutate, always the k-th alternative"""
@@ -123,7 +158,7 @@ class _Fixed:
         return seq[self.k % len(seq)]
 
 
-KINDS = {"Call": 8, "If": 5, "Slice": 3, "Compare": 1, "With": 1, "Lambda": 1, "Return": 1}
+KINDS = {"Call": 8, "If": 5, "Slice": 3, "Compare": 1, "With": 1, "Lambda": 1, "Return": 1, "Assign": 5, "For": 3}
 
 
 class OneEdit(Mutator):
@@ -152,7 +187,7 @@ def systematic_mutants(ctx: Ctx, outdir: Path, kinds: list[str]) -> list[str]:
                 try:
                     tree = ast.fix_missing_locations(OneEdit(kind, k).visit(ast.parse(Path(seed).read_text())))
                     body = ast.unparse(tree)
-                    src = "import sys\nfrom typing import TYPE_CHECKING\nARGS = []\nKW = {}\n" + body + "\n"
+                    src = "import sys\nfrom typing import TYPE_CHECKING, Any\nARGS = []\nKW = {}\nclass _O: pass\nOBJ: Any = _O()\n" + body + "\n"
                     compile(src, "m", "exec")
                 except Exception:  # noqa: BLE001
                     continue
@@ -173,7 +208,7 @@ def mutants(ctx: Ctx, outdir: Path, n: int) -> list[str]:
         try:
             tree = ast.parse(Path(seed).read_text())
             tree = ast.fix_missing_locations(Mutator(ctx.rng).visit(tree))
-            src = "import sys\nfrom typing import TYPE_CHECKING\nARGS = []\nKW = {}\n" + ast.unparse(tree) + "\n"
+            src = "import sys\nfrom typing import TYPE_CHECKING, Any\nARGS = []\nKW = {}\nclass _O: pass\nOBJ: Any = _O()\n" + ast.unparse(tree) + "\n"
             compile(src, "m", "exec")
         except Exception:  # noqa: BLE001
             continue
